@@ -4,5 +4,6 @@ set -e
 d="$1"
 git -C /repo worktree add -q --detach "$d" HEAD
 rsync -a --exclude .git /repo/ "$d"/
+git -C "$d" checkout -q -- .   # tracked files as in HEAD even if /repo had a seeded change applied while the copy ran
 cd "$d" && sed -i "s#/repo#$d#g" config.status libtool && ./config.status >/dev/null 2>&1 && make clean >/dev/null 2>&1 && make -j16 >/dev/null 2>&1
 echo "worktree ready: $d"
